@@ -129,9 +129,7 @@ Theorem C05_throughput_reading : forall n evs,
      node_tp n evs = [mul8 (o_oct o - o_oct p) / (o_end o - o_end p);
                       mul8 (o_roct o - o_roct p) / (o_end o - o_end p)]%N) /\
   (node_recs n (since_reset evs) = [] -> node_tp n evs = [0; 0]%N).
-Proof.
-  exact (fun n evs => conj (node_tp_first n evs) (conj (node_tp_next n evs) (node_tp_cleared n evs))).
-Qed.
+Proof. exact cor_throughput_reading. Qed.
 Print Assumptions C05_throughput_reading.
 
 (* the common fields follow the node that reported the latest end time *)
@@ -168,7 +166,7 @@ Print Assumptions C05_delta_since_reset.
 Theorem C05_one_flow_per_key : forall c h, wf_config c = true -> typed_history c h = true ->
   List.length (run c h) = List.length (flow_keys h) /\
   forall k, lookup (run c h) k <> None <-> In k (flow_keys h).
-Proof. exact (fun c h WF TY => conj (flow_count c h WF TY) (fun k => flow_exists_iff c h k WF TY)). Qed.
+Proof. exact cor_one_flow_per_key. Qed.
 Print Assumptions C05_one_flow_per_key.
 
 (* the hypotheses are satisfiable: the configurations in use are well formed ... *)
@@ -199,7 +197,7 @@ Proof. repeat split; reflexivity. Qed.
 Example C05_contract_nonvacuous :
   wf_history ex_cfg ex_history = true /\ wf_history ex_cfg ex_history_reset = true /\
   wf_history ex_cfg [OpRec (ex_rec true 10 1000 1000); OpRec (ex_rec true 10 3000 2000)] = false.
-Proof. exact (conj ex_history_wf (conj ex_history_reset_wf ex_breach_not_wf)). Qed.
+Proof. exact ex_contract_examples. Qed.
 (* the flow-level precondition of C05_common_total_is_latest is satisfiable, and it is needed: the
    worked history is inside the per-node contract, the destination reports the latest end time
    with octet total 2800 after the source's 3000, and the common octet total stays 3000 (= max) *)
